@@ -284,7 +284,7 @@ Example ex_items_list :
      erase t1 = TNum DFloat64 /\ erase t2 = TRec None [TNum DInt64] /\ erase t3 = TNum DUInt8 /\
      map (fun v => map (fun it => item_matches it v) [INone; TypeStr.IArray t1; IRecord t2; TypeStr.IArray t3; IScalar (FD DBool)])
          [VList [VNum (DZ 1); VNum (DZ 2)]; VTup [VNum (DZ 7)]; VStr true [104; 105]; VBool false; VNone] =
-     [[false; true; false; false; false]; [false; false; true; false; false]; [false; false; false; true; false];
+     [[false; true; false; true; false]; [false; false; true; false; false]; [false; false; false; true; false];
       [false; false; false; false; true]; [true; false; false; false; false]].
 Proof. split; [vm_compute; reflexivity|]. do 3 eexists. vm_compute. repeat split. Qed.
 
